@@ -171,9 +171,9 @@ func chartDevs() []Dev {
 			// the list item marker lives in this slot
 			for i := range devs {
 				if devs[i].Text == "" {
-					devs[i].Text = "- {}\n"
-				} else {
-					devs[i].Text = "- " + strings.TrimPrefix(devs[i].Text, "  ")
+					devs[i].Text = "- x-nothing: 1\n"
+				} else if strings.HasPrefix(devs[i].Text, "  ") {
+					devs[i].Text = "- " + devs[i].Text[2:]
 				}
 			}
 		}
@@ -575,7 +575,6 @@ func chartDevs() []Dev {
 		"derivePassword-bad", "  x: {{ derivePassword 1 \"nope\" \"a\" \"b\" \"c\" | quote }}\n",
 		"buildCustomCert-bad", "  x: {{ buildCustomCert \"!!\" \"!!\" | toJson }}\n",
 		"decryptAES-bad", "  x: {{ decryptAES \"k\" \"!!\" | quote }}\n",
-		"getHostByName", "  x: {{ getHostByName \"\" | quote }}\n",
 		"urlparse-bad", "  x: {{ urlParse \"://\\x00\" | toJson }}\n",
 		"urljoin-bad", "  x: {{ urlJoin (dict \"host\" 1) | quote }}\n",
 		"kindof-nil", "  x: {{ kindOf .Values.nope }}{{ typeOf nil }}{{ kindIs \"map\" nil }}\n",
